@@ -72,6 +72,7 @@ type LoopInfo struct {
 	modIters  map[*ssa.Range]bool
 	modGhost  map[string]*Sort
 	head      *State // state right after the havoc at the loop head
+	heldEntry *Term  // lockOnly: $held when the loop is entered
 	// range-over-func loops synthesised at the iterator call
 	RangeFunc *ssa.Function
 	rfKeys    *Term
@@ -92,6 +93,10 @@ type Obligation struct {
 }
 
 type FuncTr struct {
+	curCallArgs []Val
+	curCallCommon *ssa.CallCommon
+	lockOnly bool // verify the lock discipline only; everything else is abstracted (see locks.go)
+	abstract bool // tolerate unmodelled instructions / callees by havoc (see locks.go)
 	guardInfo map[ssa.Value]*guardRef
 	lastCallRes *Val
 	lastCallSig *types.Signature
@@ -134,10 +139,11 @@ type FuncTr struct {
 }
 
 type deferred struct {
-	call *ssa.Defer
-	args []Val
-	fnv  Val
-	at   *Term
+	call  *ssa.Defer
+	args  []Val
+	fnv   Val
+	at    *Term
+	armed string // ghost flag of a conditional defer ("" = executed on every path)
 }
 
 func (ft *FuncTr) assume(at *Term, t *Term) {
@@ -195,6 +201,15 @@ func (ft *FuncTr) assert(at *Term, goal *Term, kind, detail, clause string, pos 
 			return
 		}
 		ft.asserted[key] = true
+	}
+	if ft.lockOnly && !strings.HasPrefix(kind, "guard.") && !strings.Contains(clause, "lockstate(") && !strings.Contains(clause, "held(") && !strings.Contains(clause, "lockframe(") {
+		// lock-discipline-only function: other goals are not claimed (and are not assumed either)
+		return
+	}
+	if ft.abstract && strings.HasPrefix(kind, "safety.") {
+		// abstracted function: absence of panics is not claimed (the heap is unknown after abstracted calls)
+		ft.assume(at, goal)
+		return
 	}
 	name := ft.oblName(kind, detail)
 	if !strings.HasPrefix(kind, "safety.") && !noSplit {
@@ -683,6 +698,8 @@ func verifyFuncPass(w *World, fn *ssa.Function, c *Contract, eager map[string]bo
 	ft.h.emit = func(t *Term) { ft.assumeRaw(t) }
 	ft.elemsEager = eager
 	ft.overflow = c.Overflow
+	ft.lockOnly = c.LockOnly
+	ft.abstract = c.Abstract
 	defer func() {
 		if r := recover(); r != nil {
 			switch v := r.(type) {
@@ -734,6 +751,14 @@ func (ft *FuncTr) run() error {
 	}
 	ft.init = newState()
 	st := newState()
+	// conditional defers start unarmed
+	for _, bb := range fn.Blocks {
+		for _, in := range bb.Instrs {
+			if d, ok := in.(*ssa.Defer); ok {
+				st.ghost[deferFlag(d)] = TFalse
+			}
+		}
+	}
 	// world axioms
 	if err := ft.addAxioms(); err != nil {
 		return err
@@ -781,6 +806,10 @@ func (ft *FuncTr) run() error {
 	}
 	// loop mods
 	for _, l := range ft.loops {
+		if ft.abstract {
+			ft.computeLoopModsLockOnly(l)
+			continue
+		}
 		if err := ft.computeLoopMods(l); err != nil {
 			return err
 		}
@@ -886,6 +915,11 @@ func (ft *FuncTr) merge(b *ssa.BasicBlock, es []Edge) (*State, *Term) {
 	}
 	at := ft.d.Const(fmt.Sprintf("at_b%d", b.Index), SBool)
 	ft.assumeRaw(Eq(at, Or(conds...)))
+	return ft.mergeStates(b, es), at
+}
+
+// mergeStates joins the states of several edges (fresh constants guarded by the edge conditions).
+func (ft *FuncTr) mergeStates(b *ssa.BasicBlock, es []Edge) *State {
 	st := newState()
 	// locals
 	lk := map[*ssa.Alloc]bool{}
@@ -918,6 +952,19 @@ func (ft *FuncTr) merge(b *ssa.BasicBlock, es []Edge) (*State, *Term) {
 	for _, e := range es {
 		for k := range e.st.heap {
 			hk[k] = true
+		}
+	}
+	st.epoch = es[0].st.epoch
+	for _, e := range es {
+		if e.st.epoch != st.epoch {
+			// different whole-heap havocs on the joined paths: every known array is merged explicitly and
+			// arrays first read later are unconstrained
+			for k := range ft.h.arrSorts {
+				hk[k] = true
+			}
+			ft.h.epochCtr++
+			st.epoch = ft.h.epochCtr
+			break
 		}
 	}
 	for _, k := range sortedBoolKeys(hk) {
@@ -993,7 +1040,7 @@ func (ft *FuncTr) merge(b *ssa.BasicBlock, es []Edge) (*State, *Term) {
 		}
 		st.iters[k] = nv
 	}
-	return st, at
+	return st
 }
 
 func sortedBoolKeys(m map[string]bool) []string {
@@ -1033,7 +1080,33 @@ func (ft *FuncTr) block(b *ssa.BasicBlock) error {
 	}
 	var st *State
 	var at *Term
-	if l := ft.loops[b]; l != nil {
+	if l := ft.loops[b]; l != nil && ft.abstract {
+		pre, preAt := ft.merge(b, es)
+		l.pre, l.preAt = pre, preAt
+		l.heldEntry = ft.h.ghostVar(pre, "$held", SArray(SPtr, SInt))
+		st = pre.clone()
+		for _, a := range sortedAllocs(l.modLocals) {
+			if a.Heap {
+				continue
+			}
+			ty := a.Type().(*types.Pointer).Elem()
+			st.locals[a] = ft.d.Fresh(fmt.Sprintf("l_%s_h%d", a.Comment, b.Index), ft.w.sortOf(ft.d, ty))
+		}
+		old := ft.h.nextID(pre)
+		ft.h.havocAll(st)
+		nx := ft.d.Fresh("g_next_h", SInt)
+		ft.assume(preAt, Le(old, nx))
+		st.ghost["$next"] = nx
+		for _, r := range sortedRanges(l.modIters) {
+			mt := r.X.Type().Underlying().(*types.Map)
+			st.iters[r] = ft.d.Fresh(fmt.Sprintf("visited_h%d", b.Index), SArray(ft.w.sortOf(ft.d, mt.Key()), SBool))
+		}
+		for _, n := range sortedKeys(l.modGhost) {
+			st.ghost[n] = ft.d.Fresh(fmt.Sprintf("g_%s_h%d", n, b.Index), l.modGhost[n])
+		}
+		at = preAt
+		l.head = st.clone()
+	} else if l := ft.loops[b]; l != nil {
 		pre, preAt := ft.merge(b, es)
 		l.pre, l.preAt = pre, preAt
 		// establish
@@ -1159,7 +1232,19 @@ func (ft *FuncTr) block(b *ssa.BasicBlock) error {
 		if p := in.Pos(); p.IsValid() {
 			ft.curPos = p
 		}
-		done, err := ft.instr(b, st, at, in)
+		done, err := ft.instrGuarded(b, st, at, in)
+		if err != nil && ft.abstract {
+			if _, isUns := err.(unsupportedErr); isUns {
+				if v, isVal := in.(ssa.Value); isVal {
+					ft.vals[v] = ft.absVal(v.Type(), "abs")
+				}
+				ft.w.assume("lock-discipline-only functions: unmodelled instructions yield arbitrary values (" + shortFuncName(ft.fn) + ")")
+				err = nil
+				if _, isRet := in.(*ssa.Return); isRet {
+					done = true
+				}
+			}
+		}
 		if err != nil {
 			return err
 		}
@@ -1187,6 +1272,10 @@ func (ft *FuncTr) goEdge(b, succ *ssa.BasicBlock, cond *Term, st *State) error {
 		l := ft.loops[succ]
 		if l == nil {
 			return unsupported("back edge to non-loop header")
+		}
+		if ft.abstract {
+			ft.assert(cond, Eq(ft.h.ghostVar(st, "$held", SArray(SPtr, SInt)), l.heldEntry), fmt.Sprintf("guard.loop%d", l.Ordinal), "", "every iteration ends holding the same locks the loop was entered with", token.NoPos)
+			return nil
 		}
 		env := ft.newEnv(st)
 		env.loop = l
@@ -1586,3 +1675,23 @@ func (ft *FuncTr) locsFreshCond(locs []Loc) *Term {
 	}
 	return And(cs...)
 }
+
+// instrGuarded: in lock-discipline-only functions an instruction outside the modelled subset is reported as an
+// error value (the caller then abstracts it) instead of aborting the function.
+func (ft *FuncTr) instrGuarded(b *ssa.BasicBlock, st *State, at *Term, in ssa.Instruction) (done bool, err error) {
+	if !ft.abstract {
+		return ft.instr(b, st, at, in)
+	}
+	defer func() {
+		if r := recover(); r != nil {
+			if u, ok := r.(unsupportedErr); ok {
+				err = u
+				return
+			}
+			panic(r)
+		}
+	}()
+	return ft.instr(b, st, at, in)
+}
+
+func deferFlag(d *ssa.Defer) string { return fmt.Sprintf("$defer_%d_%d", d.Block().Index, int(d.Pos())) }
